@@ -78,6 +78,35 @@ def enum_skewed(tier, shard, nshards):
                         i += 1
 
 
+def enum_blocks(tier, shard, nshards):
+    """Regular operands at block-size lengths: runs of consecutive (or evenly spaced) row ids whose length is a
+    power of two or one off (16..1025), against themselves, shifted copies, halves, every other element, single
+    elements at block boundaries, and three-way lists of them. Real row-id arrays look like this (contiguous
+    ranges after a filter, whole blocks of a sorted file); uniform random generation never produces them, and
+    block-wise / unrolled / vectorised loops have their slips exactly there."""
+    i = 0
+    lengths = [15, 16, 17, 31, 32, 33, 63, 64, 65, 127, 128, 129, 255, 256, 257] + (
+        [1023, 1024, 1025] if tier == "quick" else [511, 512, 513, 1023, 1024, 1025, 4095, 4096, 4097])
+    for n in lengths:
+        for step in (1, 2):
+            for base in (0, TOP - step * (n + 2)):
+                a = [base + step * j for j in range(n)]
+                half = n // 2
+                variants = [a, a[1:], a[:-1], a[:half], a[half:], a[::2], a[1::2], [v + 1 for v in a if v + 1 <= TOP],
+                            [a[0]], [a[-1]], [a[half]], [a[half - 1], a[half]], a + [a[-1] + step],
+                            [v for k, v in enumerate(a) if k % 64 in (0, 63)], []]
+                for b in variants:
+                    for x, y in ((a, b), (b, a)):
+                        if i % nshards == shard:
+                            yield {"op": "pair", "a": x, "b": y, "u": "block%d" % n,
+                                   "layout": LAYOUT_CYCLE[i % len(LAYOUT_CYCLE)]}
+                        i += 1
+                for lst in ([a, a[::2], a[half:]], [a[:half], a[half:], a], [a[1::2], a[::2], []]):
+                    if i % nshards == shard:
+                        yield {"op": "many", "arrays": lst, "u": "block%d" % n}
+                    i += 1
+
+
 PATTERNS = [
     "skewed", "skewed",
     "codes", "disjoint_left", "disjoint_right", "touching", "nested", "interleaved",
